@@ -16,9 +16,16 @@ Theorem C14_rotation_bound : forall m rates new_opt m' fl,
   change_conn_state m rates new_opt = Ok (m', fl) -> U (m_peers m') <= 10 + len new_opt.
 Proof. exact rotation_bound. Qed.
 
-(* the rotation's policy (each regular slot interested, no better-rated interested peer left choked, lost interest =>
-   choked, broadcast map = exactly the changes) is decided on the real Session by the correspondence oracle policy14
-   for every rate order with ties; no Coq proof yet *)
+(* policy, first half: after a rotation every unchoked peer that is not a freshly picked optimistic one has declared
+   interest -- so each regular slot belongs to an interested peer and every peer that lost interest has been choked *)
+Theorem C14_slots_interested : forall m rates new_opt m' fl,
+  NoDup (map fst rates) -> change_conn_state m rates new_opt = Ok (m', fl) ->
+  forall a p', In a (map fst rates) -> ~ In a new_opt -> pget (m_peers m') a = Some p' ->
+  p_am_choked p' = false -> p_interested p' = true.
+Proof. exact rotation_slots_interested. Qed.
+
+(* the rest of the policy (no better-rated interested peer left choked, broadcast map = exactly the changes) is decided
+   on the real Session by the correspondence oracle policy14 for every rate order with ties; no Coq proof yet *)
 Example C14_nonvacuous :
   let p c i := mkpeer None [] None false c i true false None None in
   match change_conn_state (mkmgr [] [(1, p true true); (2, p false false); (3, p true true)] [] 0 false []) [(1, 5); (2, 9); (3, 5)] [] with
@@ -29,3 +36,4 @@ Proof. vm_compute. split; reflexivity. Qed.
 
 Print Assumptions C14_bitfield_bound.
 Print Assumptions C14_rotation_bound.
+Print Assumptions C14_slots_interested.
